@@ -31,15 +31,15 @@ type c01case struct {
 }
 
 func c01run(r *hk.Reporter, c *c01case) {
-	pub := refPub(c.d)
+	pub := zvRefPub(c.d)
 	px, py := ref.B32(pub.X), ref.B32(pub.Y)
-	rd := newScript(c.stream)
+	rd := zvNewScript(c.stream)
 	rd.chunk = c.chunk
 	var rr, ss []byte
 	var err error
 	detail := func() hk.D {
-		return hk.D{"entry": c.entry, "priv": hk.Hex(c.priv), "e": hexOrNil(c.e), "za": hexOrNil(c.za), "id": hexOrNil(c.id), "msg": hexOrNil(c.msg),
-			"stream": hk.Hex(c.stream[:min(len(c.stream), rd.off+32)]), "chunk": c.chunk, "label": c.label, "r": hexOrNil(rr), "s": hexOrNil(ss)}
+		return hk.D{"entry": c.entry, "priv": hk.Hex(c.priv), "e": zvHexOrNil(c.e), "za": zvHexOrNil(c.za), "id": zvHexOrNil(c.id), "msg": zvHexOrNil(c.msg),
+			"stream": hk.Hex(c.stream[:zvMin(len(c.stream), rd.off+32)]), "chunk": c.chunk, "label": c.label, "r": zvHexOrNil(rr), "s": zvHexOrNil(ss)}
 	}
 	p, msg, _, _ := hk.Try(func() {
 		switch c.entry {
@@ -99,11 +99,11 @@ func c01run(r *hk.Reporter, c *c01case) {
 	if p {
 		d := detail()
 		d["panic"] = msg
-		d["t_leading_zero_bytes"] = lzClass(t)
+		d["t_leading_zero_bytes"] = zvLzClass(t)
 		r.Violation("verify-panics:"+c.entry, d)
 	} else if !ok || err != nil {
 		d := detail()
-		d["err"] = errStr(err)
+		d["err"] = zvErrStr(err)
 		r.Violation("own-signature-rejected:"+c.entry, d)
 	}
 	if !ref.SM2Verify(px, py, e, rr, ss) {
@@ -112,18 +112,18 @@ func c01run(r *hk.Reporter, c *c01case) {
 	if strings.HasPrefix(c.label, "history:") {
 		r.Eval(fmt.Sprintf("%s:related-key-history,keylen=%d", c.entry, len(c.priv)))
 	} else if strings.HasPrefix(c.label, "rare-nonce-") {
-		r.Eval(fmt.Sprintf("%s:%s,lz(r)=%d,consumed=%d", c.entry, c.label, lzClass(rI), rd.off))
+		r.Eval(fmt.Sprintf("%s:%s,lz(r)=%d,consumed=%d", c.entry, c.label, zvLzClass(rI), rd.off))
 	} else if strings.HasPrefix(c.label, "retry-after-") {
 		r.Eval(fmt.Sprintf("%s:%s,consumed=%d", c.entry, c.label, rd.off))
 	} else {
-		r.Eval(fmt.Sprintf("%s:privlen=%d,lz(r)=%d,lz(s)=%d,lz(t)=%d", c.entry, len(c.priv), lzClass(rI), lzClass(sI), lzClass(t)))
+		r.Eval(fmt.Sprintf("%s:privlen=%d,lz(r)=%d,lz(s)=%d,lz(t)=%d", c.entry, len(c.priv), zvLzClass(rI), zvLzClass(sI), zvLzClass(t)))
 	}
-	r.Count(fmt.Sprintf("lz_r_%d", lzClass(rI)), 1)
-	r.Count(fmt.Sprintf("lz_s_%d", lzClass(sI)), 1)
-	r.Count(fmt.Sprintf("lz_t_%d", lzClass(t)), 1)
+	r.Count(fmt.Sprintf("lz_r_%d", zvLzClass(rI)), 1)
+	r.Count(fmt.Sprintf("lz_s_%d", zvLzClass(sI)), 1)
+	r.Count(fmt.Sprintf("lz_t_%d", zvLzClass(t)), 1)
 }
 
-func min(a, b int) int {
+func zvMin(a, b int) int {
 	if a < b {
 		return a
 	}
@@ -139,16 +139,16 @@ func TestVerifC01(t *testing.T) {
 	}
 	seed := hk.Seed()
 	rng := hk.NewRNG(seed, "c01")
-	hostilePrelude(hk.NewRNG(hk.Seed(), "prelude"))
+	zvHostilePrelude(hk.NewRNG(hk.Seed(), "prelude"))
 
-	keys := specialKeys()
+	keys := zvSpecialKeys()
 	nRandKeys := hk.N(6, 40)
 	for i := 0; i < nRandKeys; i++ {
-		keys = append(keys, randScalar(rng))
+		keys = append(keys, zvRandScalar(rng))
 	}
 	// keys whose d+1 (the value the signer inverts) has a carry-critical internal representation
-	for _, v := range montgomeryPatternScalars(rng, 40)[:10] {
-		if d := new(big.Int).Sub(v, bi(1)); ref.ValidPriv(d) {
+	for _, v := range zvMontgomeryPatternScalars(rng, 40)[:10] {
+		if d := new(big.Int).Sub(v, zvBi(1)); ref.ValidPriv(d) {
 			keys = append(keys, d)
 		}
 	}
@@ -170,10 +170,10 @@ func TestVerifC01(t *testing.T) {
 				b[0] |= 1
 				targets = append(targets, new(big.Int).SetBytes(b))
 			}
-			targets = append(targets, bi(1), bi(2), bi(255), new(big.Int).Set(nm1))
+			targets = append(targets, zvBi(1), zvBi(2), zvBi(255), new(big.Int).Set(zvNm1))
 			for _, tg := range targets {
-				k := randScalar(rng)
-				e, ok := solveDigest(d, k, kind, tg)
+				k := zvRandScalar(rng)
+				e, ok := zvSolveDigest(d, k, kind, tg)
 				if !ok {
 					continue
 				}
@@ -190,9 +190,9 @@ func TestVerifC01(t *testing.T) {
 	// windows the verifier's base half consumes while the key half is still empty, varies freely
 	for i := 0; i < hk.N(400, 4000); i++ {
 		d := keys[rng.Intn(len(keys))]
-		k := randScalar(rng)
-		tg := bi(int64(1 + rng.Intn(1<<uint([]int{4, 8, 13, 16}[i%4]))))
-		e, ok := solveDigest(d, k, "t", tg)
+		k := zvRandScalar(rng)
+		tg := zvBi(int64(1 + rng.Intn(1<<uint([]int{4, 8, 13, 16}[i%4]))))
+		e, ok := zvSolveDigest(d, k, "t", tg)
 		if !ok {
 			continue
 		}
@@ -204,7 +204,7 @@ func TestVerifC01(t *testing.T) {
 	for ki, d := range solvedKeys {
 		for _, rule := range []string{"r=0", "r+k=n", "s=0", "k=0", "k>=n"} {
 			for rep := 0; rep < hk.N(2, 6); rep++ {
-				k1 := randScalar(rng)
+				k1 := zvRandScalar(rng)
 				x1 := ref.BaseMulFast(k1).X
 				e := rng.Bytes(32)
 				first := ref.B32(k1)
@@ -212,16 +212,16 @@ func TestVerifC01(t *testing.T) {
 				case "r=0":
 					e = ref.B32(ref.ModN(new(big.Int).Neg(x1)))
 				case "r+k=n":
-					e = ref.B32(ref.ModN(new(big.Int).Sub(new(big.Int).Sub(nI, k1), x1)))
+					e = ref.B32(ref.ModN(new(big.Int).Sub(new(big.Int).Sub(zvNI, k1), x1)))
 				case "s=0":
 					rT := ref.ModN(new(big.Int).Mul(k1, ref.InvN(d)))
 					e = ref.B32(ref.ModN(new(big.Int).Sub(rT, x1)))
 				case "k=0":
 					first = make([]byte, 32)
 				default:
-					first = ref.B32(new(big.Int).Add(nI, bi(int64(rep))))
+					first = ref.B32(new(big.Int).Add(zvNI, zvBi(int64(rep))))
 				}
-				stream := append(append([]byte{}, first...), ref.B32(randScalar(rng))...)
+				stream := append(append([]byte{}, first...), ref.B32(zvRandScalar(rng))...)
 				stream = append(stream, rng.Bytes(64)...)
 				cases = append(cases, &c01case{entry: "hashed", d: d, priv: ref.B32(d), e: e, stream: stream, chunk: []int{0, 1, 7}[(ki+rep)%3], label: "retry-after-" + rule})
 			}
@@ -229,14 +229,14 @@ func TestVerifC01(t *testing.T) {
 	}
 	// (a3) nonces from the rare-x1 fixture with digests at the boundaries where e + x1 crosses 2n / n:
 	// signer and verifier both have to reduce e + x1 by the right multiple of n
-	rare, rerr := rareNonceCases(rng)
+	rare, rerr := zvRareNonceCases(rng)
 	if rerr != nil {
 		r.Inconclusive("rare-nonce fixture: " + rerr.Error())
 		return
 	}
 	for i, rc := range rare {
 		d := keys[(i*5)%len(keys)]
-		stream := append(append(ref.B32(rc.k), ref.B32(randScalar(rng))...), rng.Bytes(64)...)
+		stream := append(append(ref.B32(rc.k), ref.B32(zvRandScalar(rng))...), rng.Bytes(64)...)
 		cases = append(cases, &c01case{entry: "hashed", d: d, priv: ref.B32(d), e: rc.e, stream: stream, chunk: []int{0, 1, 7}[i%3], label: rc.label})
 	}
 	// (b) random round trips through all three entry points
@@ -256,7 +256,7 @@ func TestVerifC01(t *testing.T) {
 			case 0:
 				c.e = make([]byte, 32)
 			case 1:
-				c.e = ref.B32(new(big.Int).Sub(b256, bi(1)))
+				c.e = ref.B32(new(big.Int).Sub(zvB256, zvBi(1)))
 			}
 		case 1:
 			c.entry = "za"
@@ -282,8 +282,8 @@ func TestVerifC01(t *testing.T) {
 	// valid key), equal values in different encodings, keys sharing long prefixes; both orders; all three
 	// entry points. Every signature must verify under the key it was made with.
 	for h := 0; h < hk.N(30, 300); h++ {
-		lr := hk.NewRNG(seed, caseID("c01hist", h))
-		a := ref.B32(randScalar(lr))
+		lr := hk.NewRNG(seed, zvCaseID("c01hist", h))
+		a := ref.B32(zvRandScalar(lr))
 		a[0] |= 1
 		cut := 1 + lr.Intn(8)
 		fam := [][]byte{a, a[cut:], a[1:], append([]byte{}, a...), append(make([]byte, cut), a[cut:]...)}
@@ -325,11 +325,11 @@ func TestVerifC01(t *testing.T) {
 		}
 		var ds []*big.Int
 		for i := 0; i < 4; i++ {
-			ds = append(ds, randScalar(lr))
+			ds = append(ds, zvRandScalar(lr))
 		}
 		var sigs []kept
 		load := func(ki int, e []byte) {
-			P := refPub(ds[ki])
+			P := zvRefPub(ds[ki])
 			copy(pb[:], ref.B32(ds[ki]))
 			copy(xb[:], ref.B32(P.X))
 			copy(yb[:], ref.B32(P.Y))
@@ -346,7 +346,7 @@ func TestVerifC01(t *testing.T) {
 			}
 			ok, verr := VerifyHashed(xb[:], yb[:], eb[:], rr, ss)
 			if !ok || verr != nil || !ref.SM2Verify(xb[:], yb[:], e, rr, ss) {
-				r.Violation("own-signature-rejected:caller-reuses-its-buffers", hk.D{"priv": hk.Hex(pb[:]), "e": hk.Hex(e), "r": hexOrNil(rr), "s": hexOrNil(ss), "err": errStr(verr), "step": step, "key_index": ki})
+				r.Violation("own-signature-rejected:caller-reuses-its-buffers", hk.D{"priv": hk.Hex(pb[:]), "e": hk.Hex(e), "r": zvHexOrNil(rr), "s": zvHexOrNil(ss), "err": zvErrStr(verr), "step": step, "key_index": ki})
 			}
 			sigs = append(sigs, kept{ki, e, rr, ss, append([]byte{}, rr...), append([]byte{}, ss...)})
 			// now and then: an EARLIER signature (other key, other digest) verified through the same buffers
@@ -355,7 +355,7 @@ func TestVerifC01(t *testing.T) {
 				load(o.ki, o.e)
 				ok, verr = VerifyHashed(xb[:], yb[:], eb[:], o.r, o.s)
 				if !ok || verr != nil {
-					r.Violation("own-signature-rejected:earlier-signature-verified-later-through-reused-buffers", hk.D{"e": hk.Hex(o.e), "r_now": hexOrNil(o.r), "r_returned": hk.Hex(o.r0), "s_now": hexOrNil(o.s), "s_returned": hk.Hex(o.s0), "err": errStr(verr), "step": step, "key_index": o.ki})
+					r.Violation("own-signature-rejected:earlier-signature-verified-later-through-reused-buffers", hk.D{"e": hk.Hex(o.e), "r_now": zvHexOrNil(o.r), "r_returned": hk.Hex(o.r0), "s_now": zvHexOrNil(o.s), "s_returned": hk.Hex(o.s0), "err": zvErrStr(verr), "step": step, "key_index": o.ki})
 				}
 			}
 			r.Eval("hashed:reused-buffers")
